@@ -60,6 +60,8 @@ fn worker(args: &[String]) -> i32 {
         "panic" => engines::worker_panic(&wa),
         "walks" => engines::worker_walks(&wa, Fate::Drop, 6, 3),
         "walks-forget" => engines::worker_walks(&wa, Fate::Forget, 6, 1),
+        "mem" => engines::worker_mem(&wa),
+        "mem-big" => engines::worker_mem_big(&wa),
         other => { eprintln!("worker: unknown engine {}", other); return 2; }
     };
     let text = serde_json::to_string(&acc.to_json()).unwrap();
@@ -80,6 +82,9 @@ fn exec_case(args: &[String]) -> i32 {
         _ => return 2,
     };
     lruverif::tracked::install_panic_hook(true);
+    if let Some(line) = text.lines().find(|l| l.starts_with("memsize")) {
+        return match engines::run_mem_line(line) { Ok(_) => 0, Err(_) => 2 };
+    }
     match Case::from_text(&text) {
         Ok(case) => { let _ = run_case(&case, prop, false); 0 },
         Err(_) => 2,
@@ -97,6 +102,32 @@ fn replay(args: &[String]) -> i32 {
         Err(e) => { eprintln!("replay: {}: {}", path, e); return 2; }
     };
     lruverif::tracked::install_panic_hook(false);
+    if let Some(line) = text.lines().find(|l| l.starts_with("memsize")) {
+        // run in a child first: a stack overflow must become a verdict
+        let exe = std::env::current_exe().unwrap();
+        let st = Command::new(&exe).arg("exec-case").arg(prop).arg(&path).status();
+        let crashed = st.map(|s| s.code().map(|c| c != 0 && c != 2).unwrap_or(true)).unwrap_or(false);
+        if crashed {
+            println!("FAILURE the process died while evaluating: {}", line);
+            println!("VIOLATION property={} replay={}", prop, path);
+            return 1;
+        }
+        return match engines::run_mem_line(line) {
+            Ok((d, fails)) => {
+                println!("  {}", d);
+                let known = load_known(&root());
+                let mut code = 0;
+                for f in &fails {
+                    println!("FAILURE tags={} sig={} : {}", f.tags.join("+"), f.sig, f.msg);
+                    if f.tags.contains(&prop) && is_known(&known, prop, &f.sig).is_none() { code = 1; }
+                }
+                if code == 1 { println!("VIOLATION property={} replay={}", prop, path); }
+                else { println!("replay: property {} held on this case", prop); }
+                code
+            },
+            Err(e) => { eprintln!("replay: {}", e); 2 },
+        };
+    }
     let case = match Case::from_text(&text) {
         Ok(c) => c,
         Err(e) => { eprintln!("replay: {}", e); return 2; }
@@ -130,6 +161,8 @@ fn replay(args: &[String]) -> i32 {
 #[derive(Clone, Debug)]
 struct Job {
     engine: &'static str,
+    /// which build of the harness runs it: "" (this binary), "opt0", "release"
+    build: &'static str,
     asan: bool,
     workers: u64,
     cases: u32,
@@ -138,26 +171,34 @@ struct Job {
 
 fn jobs_for(prop: &str, thorough: bool) -> Vec<Job> {
     let t = thorough;
-    let cache = |asan: bool, q: u32, th: u32| Job { engine: "cache", asan, workers: 16, cases: if t { th } else { q }, timeout_s: if t { 5400 } else { 900 } };
+    let cache = |asan: bool, q: u32, th: u32| Job { engine: "cache", build: "", asan, workers: 16, cases: if t { th } else { q }, timeout_s: if t { 5400 } else { 900 } };
     match prop {
         "C01" | "C02" | "C03" | "C04" | "C05" | "C10" | "C11" | "C13" | "C15" | "C19" | "C20" =>
             vec![cache(false, 4000, 12000)],
         "C06" | "C07" | "C14" =>
             vec![cache(false, 4000, 12000), cache(true, 600, 3000)],
         "C12" => vec![
-            Job { engine: "walks", asan: false, workers: 16, cases: 0, timeout_s: 1800 },
+            Job { engine: "walks", build: "", asan: false, workers: 16, cases: 0, timeout_s: 1800 },
             cache(false, 300, 3000),
-            Job { engine: "walks", asan: true, workers: 16, cases: 0, timeout_s: 1800 },
+            Job { engine: "walks", build: "", asan: true, workers: 16, cases: 0, timeout_s: 1800 },
             cache(true, 60, 800),
         ],
         "C16" => vec![
-            Job { engine: "panic", asan: false, workers: 16, cases: if t { 1500 } else { 120 }, timeout_s: if t { 5400 } else { 900 } },
-            Job { engine: "panic", asan: true, workers: 16, cases: if t { 400 } else { 30 }, timeout_s: if t { 5400 } else { 900 } },
+            Job { engine: "panic", build: "", asan: false, workers: 16, cases: if t { 1500 } else { 120 }, timeout_s: if t { 5400 } else { 900 } },
+            Job { engine: "panic", build: "", asan: true, workers: 16, cases: if t { 400 } else { 30 }, timeout_s: if t { 5400 } else { 900 } },
+        ],
+        "C08" => vec![
+            Job { engine: "mem", build: "", asan: false, workers: 16, cases: if t { 40000 } else { 3000 }, timeout_s: 3600 },
+            Job { engine: "mem-big", build: "opt0", asan: false, workers: 14, cases: 0, timeout_s: 1800 },
+            Job { engine: "mem-big", build: "release", asan: false, workers: 14, cases: 0, timeout_s: 1800 },
+        ],
+        "C09" => vec![
+            Job { engine: "mem", build: "", asan: false, workers: 16, cases: if t { 40000 } else { 3000 }, timeout_s: 3600 },
         ],
         "C17" => vec![
-            Job { engine: "walks-forget", asan: false, workers: 16, cases: 0, timeout_s: 1800 },
+            Job { engine: "walks-forget", build: "", asan: false, workers: 16, cases: 0, timeout_s: 1800 },
             cache(false, 200, 3000),
-            Job { engine: "walks-forget", asan: true, workers: 16, cases: 0, timeout_s: 1800 },
+            Job { engine: "walks-forget", build: "", asan: true, workers: 16, cases: 0, timeout_s: 1800 },
             cache(true, 50, 800),
         ],
         _ => vec![],
@@ -180,6 +221,8 @@ fn rule_of(prop: &str) -> &'static str {
         "C05" => "non-trivial = a promoting operation hit a non-MRU entry in a cache of >= 3 entries, or a table rebuild happened between two order checks; distinct = (operation, position class, hasher class)",
         "C06" => "non-trivial = an owning iterator was dropped partially consumed, or the table was rebuilt with entries inside; distinct = (event, iterator kind / operation, consumption class)",
         "C07" => "non-trivial = a capacity operation rebuilt a table holding >= 8 entries; distinct = (grow/shrink, hasher class, size class)",
+        "C08" => "cases = (menu type, generator bytes): one value checked for mem = value + heap and heap == element-wise structural sum, then the four bulk helpers over 8 iterator adaptors of generated elements of that type; plus large element counts on a 2 MiB stack; non-trivial = type with >= 2 nesting levels and spare capacity somewhere or >= 2 elements under an adaptor; distinct = (type, adaptor) / (big kind, count)",
+        "C09" => "cases = (menu type, generator bytes) built by with_capacity/push/extend/reserve/shrink/truncate scripts at every nesting level, heap_size compared with the live bytes the counting global allocator attributes to the value; non-trivial = some level holds capacity beyond its length; distinct = type",
         "C10" => "non-trivial = a rejection with >= 2 simultaneously true failure conditions, or an acceptance at exact fit; distinct = (operation, expected outcome, condition vector)",
         "C11" => "non-trivial = a size-changing mutate on a cache of >= 2 entries; distinct = (shrink / grow-fit / grow-evict1 / grow-evictN / overflow, position, hasher class)",
         "C12" => "non-trivial = a walk on length >= 2 mixing next and next_back and calling past exhaustion; distinct = (iterator kind, length, call pattern)",
@@ -194,8 +237,11 @@ fn rule_of(prop: &str) -> &'static str {
     }
 }
 
-fn bin_path(asan: bool) -> PathBuf {
+fn bin_path(asan: bool, build: &str) -> PathBuf {
     let h = root().join("harness");
+    if !build.is_empty() {
+        return h.join("target").join(build).join("vcheck");
+    }
     if asan {
         h.join("target-asan/x86_64-unknown-linux-gnu/debug/vcheck")
     }
@@ -214,7 +260,7 @@ struct Running {
 /// Is a process crash while running this case evidence about `prop`?
 fn crash_relevant(prop: &str, case_text: &str) -> bool {
     match prop {
-        "C06" | "C07" => true,
+        "C06" | "C07" | "C08" => true,
         "C12" => case_text.contains("iterwalk"),
         "C14" => case_text.contains("clone"),
         "C16" => case_text.contains("inject"),
@@ -259,7 +305,7 @@ fn orchestrate(args: &[String]) -> i32 {
     let mut crash_violations: Vec<(String, String)> = Vec::new();
 
     for (jn, job) in jobs_for(prop, thorough).iter().enumerate() {
-        let bin = bin_path(job.asan);
+        let bin = bin_path(job.asan, job.build);
         if !bin.exists() {
             inconclusive.push(format!("binary {} missing (engine {}{})", bin.display(), job.engine, if job.asan { " under ASan" } else { "" }));
             continue;
@@ -348,7 +394,8 @@ fn orchestrate(args: &[String]) -> i32 {
                 },
             }
         }
-        per_engine.insert(format!("{}{}", job.engine, if job.asan { "+asan" } else { "" }), json!({
+        per_engine.insert(format!("{}{}{}", job.engine, if job.asan { "+asan" } else { "" },
+            if job.build.is_empty() { String::new() } else { format!("+{}", job.build) }), json!({
             "workers": job.workers, "cases": job_acc.cases, "steps": job_acc.steps,
             "distinct_nontrivial": job_acc.nt.len(), "exhaustive": job_acc.exhaustive,
         }));
